@@ -38,4 +38,11 @@ theorem liftE_ok {α} {e : Except Err α} {a : α} {s s' : St} :
 theorem raise_ok {α} {e : Err} {a : α} {s s' : St} : (raise e : M α) s = .ok (a, s') ↔ False := by
   unfold raise; simp
 
+/-- `if c then m else raise e` completed: `c` held and `m` completed -/
+theorem ite_else_raise_ok {α} {c : Prop} [Decidable c] {m : M α} {e : Err} {a : α} {s s' : St}
+    (h : (if c then m else raise e) s = .ok (a, s')) : c ∧ m s = .ok (a, s') := by
+  split at h
+  case isTrue hc => exact ⟨hc, h⟩
+  case isFalse => exact (raise_ok.mp h).elim
+
 end Pysnark
